@@ -8,7 +8,7 @@ Python `None` as `~`, a raised `ValueError` as `!`.
 
   begin                                                   → ok
   std urlsplit <arg> <scheme> <netloc> <path> <query> <fragment> <hostname|~> <port|~|!> <geturl> → ok
-  std urljoin <base> <url> <result>                       → ok
+  std urljoin <base> <url> <result|!>                     → ok      (! = raised ValueError)
   std unquote|quote|quote_plus|unquote_plus <arg> <result> → ok
   std resolve <name> <address|!>                          → ok
   init <url> <hostname> <port|~> <scheme> <redirectable 0|1> (~ | <tls 0|1> <chost> <cport>)   → effects
@@ -25,7 +25,7 @@ open Ioflo.Proto Ioflo.Redirect
 
 structure Table where
   urlsplit : List (Str × Split) := []
-  urljoin : List ((Str × Str) × Str) := []
+  urljoin : List ((Str × Str) × Option Str) := []
   unquote : List (Str × Str) := []
   quote : List (Str × Str) := []
   quotePlus : List (Str × Str) := []
@@ -39,7 +39,7 @@ def missSplit : Split :=
 
 def Table.std (t : Table) : Std where
   urlsplit a := (t.urlsplit.lookup a).getD missSplit
-  urljoin a b := (t.urljoin.lookup (a, b)).getD miss
+  urljoin a b := (t.urljoin.lookup (a, b)).getD (some miss)
   unquote a := (t.unquote.lookup a).getD miss
   quote a := (t.quote.lookup a).getD miss
   quotePlus a := (t.quotePlus.lookup a).getD miss
@@ -93,7 +93,7 @@ def fmtSnap (s : Snap) : String :=
 
 def fmtRec (r : Rec) : String :=
   toString r.status ++ " " ++ (match r.location with | none => "~" | some l => hex l) ++ " " ++ fmtSnap r.req
-    ++ " " ++ bytesToHex r.body
+    ++ " " ++ bytesToHex r.body ++ (if r.errored then " 1" else " 0")
 
 def fmtFinal (p : Patron) : String :=
   "final " ++ (if p.waited then "1" else "0") ++ " " ++ toString p.redirects.length ++ " " ++
@@ -144,9 +144,13 @@ def stdLine (t : Table) : List String → Option Table
       | none => none
     | _, _, _, _, _, _, _, _ => none
   | ["urljoin", a, b, r] =>
-    match str? a, str? b, str? r with
-    | some a, some b, some r => some { t with urljoin := t.urljoin ++ [((a, b), r)] }
-    | _, _, _ => none
+    match str? a, str? b with
+    | some a, some b =>
+      if r == "!" then some { t with urljoin := t.urljoin ++ [((a, b), none)] }
+      else match str? r with
+        | some r => some { t with urljoin := t.urljoin ++ [((a, b), some r)] }
+        | none => none
+    | _, _ => none
   | ["resolve", a, r] =>
     match str? a with
     | some a =>
